@@ -153,7 +153,7 @@ def main(argv=None):
     known = [k for k in load_known() if k.get("property") == prop and k.get("status", "open") == "open"]
     keys = [k for k, c in REG.contracts.items() if prop in c.props and c.verify and (not a.only or a.only in k)]
     assumed = [k for k, c in REG.contracts.items() if not c.verify]
-    if not keys and not [r for r in REG.writer_rules if r["prop"] == prop]:
+    if not keys and not [r for r in REG.writer_rules if r["prop"] == prop] and not [r for r in REG.native if r["prop"] == prop]:
         print(f"CHECKER-ERROR no functions under contract for {prop}")
         return 3
     thorough = a.tier == "thorough"
@@ -170,6 +170,27 @@ def main(argv=None):
     for r_ in raw:
         by_key.setdefault(r_["key"], []).append(r_)
     results = [merge_results(by_key[k]) for k in keys]
+    import subprocess
+    for nb in REG.native:
+        if nb["prop"] != prop or a.only:
+            continue
+        t1 = time.time()
+        pr = subprocess.run([sys.executable, "-W", "ignore", os.path.join(ROOT, nb["script"])], capture_output=True, text=True, cwd=ROOT)
+        try:
+            doc = json.loads([l for l in pr.stdout.splitlines() if l.startswith("{")][-1])
+        except Exception:
+            doc = {"checked": 0, "counterexample": None, "error": (pr.stdout + pr.stderr)[-400:]}
+        ob = {"name": f"bounded.{nb['name']}", "kind": "bounded_native", "label": nb["name"], "line": 0, "path": "-",
+              "status": "failed" if doc.get("counterexample") else ("discharged" if doc.get("checked") else "unknown"),
+              "backend": "native enumeration", "secs": round(time.time() - t1, 2), "detail": doc.get("error", ""),
+              "model": doc.get("counterexample"), "smt_head": None, "bounded": nb["bound"], "native_checked": doc.get("checked", 0)}
+        results.append({"key": f"bounded::{nb['name']}", "file": nb["script"], "qualname": nb["name"], "sha256": "", "lines": [0, 0],
+                        "paths": 0, "error": None if doc.get("checked") else f"native bounded check did not run: {doc.get('error')}",
+                        "obligations": [ob], "log": [f"bounded stand-in {nb['name']}: {nb['what']} (bound: {nb['bound']})"],
+                        "refutations": ([{"bound": nb["bound"], "obligation": ob["name"], "kind": "bounded_native", "label": nb["name"], "path": "-",
+                                          "model": doc["counterexample"], "replay": {"built": True, "reproduced": True,
+                                                                                    "detail": "found by running the real functions; rerun " + nb["script"]}}]
+                                        if doc.get("counterexample") else []), "secs": round(time.time() - t1, 2), "bounded": nb["bound"]})
     from pyvc.frames import check_writers
     for rule in REG.writer_rules:
         if rule["prop"] == prop and not a.only:
@@ -200,8 +221,8 @@ def report(prop, tier, seed, results, known, assumed, t0, verbose):
                 b = bounded.setdefault(r["qualname"], {"function": r["qualname"], "file": r["file"], "bound": o["bounded"],
                                                        "checked": 0, "held": 0, "undecided": 0,
                                                        "rule": "every list/dict/set has at most `bound` elements, loops unrolled `bound` times, quantifiers expanded"})
-                b["checked"] += 1
-                b["held"] += o["status"] == "discharged"
+                b["checked"] += o.get("native_checked", 1)
+                b["held"] += o.get("native_checked", 1) if o["status"] == "discharged" else 0
                 b["undecided"] += o["status"] == "unknown"
                 continue
             n_obl += 1
@@ -238,6 +259,11 @@ def report(prop, tier, seed, results, known, assumed, t0, verbose):
         refs = [x for x in r["refutations"] if "obligation" in x]
         reproduced = [x for x in refs if x["replay"].get("reproduced")]
         for name, obs in failing.items():
+            if name.endswith("frame.no_allocation_declared"):
+                # the function now allocates although its contract says it does not: the contract has to be updated
+                # before anything can be concluded -- not a statement about the property
+                undecided.append((name, "function allocates but its contract does not declare `allocates` (contract out of date)"))
+                continue
             sat_proof = any(o["status"] == "failed" for o in obs)
             mine = [x for x in refs if x["obligation"] == name]
             rep = next((x for x in reproduced if x["obligation"] == name), None) or (reproduced[0] if reproduced else None)
